@@ -624,14 +624,19 @@ def pause_family_cases():
                 for handled in (False, True):
                     first = M("set", "m1", 1.0, group="g") if op == "set" else M("trigger", "d1", group="g")
                     wait = M("wait", None, group="g")
-                    if handled:
-                        wait = ["try", wait, [["FailedStatus", "swallow", M("null", None, "handled")]], None]
                     nodes = [M("open_run"), M("checkpoint"), first, M("checkpoint"), M("null", None, "a")]
+                    tail = []
                     if pause_kind == "msg":
-                        nodes.append(M("pause"))
+                        tail.append(M("pause"))
                     elif pause_kind == "defer_msg":
-                        nodes += [M("pause", None, defer=True), M("checkpoint")]
-                    nodes += [M("sleep", None, 0.1), M("null", None, "b"), wait, M("null", None, "after-wait"), M("close_run")]
+                        tail += [M("pause", None, defer=True), M("checkpoint")]
+                    tail += [M("sleep", None, 0.1), M("null", None, "b"), wait]
+                    if handled:
+                        # the failure may be delivered at any yield up to the wait: guard all of them
+                        nodes.append(["try", SEQ(*tail), [["FailedStatus", "swallow", M("null", None, "handled")]], None])
+                    else:
+                        nodes += tail
+                    nodes += [M("null", None, "after-wait"), M("close_run")]
                     stages = [{"do": "call"}, {"do": "resume"}, {"do": "resume"}]
                     if pause_kind == "inj":
                         stages[0]["inj"] = [{"at_msg": 4, "plus": 1, "do": "pause"}]
